@@ -93,6 +93,14 @@ CLAIMS = {
                 'multiplication maps [0,1]x[0,1] into [0,1]; model tied by the correspondence (2,222 weight literals, all 52x52 card-pair tokens, probabilities of enumerated showdowns).',
         'design_ref': 'DESIGN.md §6 C10',
     },
+    'C11': {
+        'text': 'C11_suits: for every suit permutation, every three-card flop and every list of ranges, every integer tally (player p flagged in a showdown with exactly k winners) of the relabelled input '
+                'equals that of the input; C11_players: exchanging two neighbouring players exchanges their tallies (neighbour exchanges generate all reorderings); C11_pot: in every deal the flagged players '
+                'number k >= 1, so k shares of 1/k make one pot; C11_model_flags: the iterator model\'s showdown of a legal deal carries exactly the specification\'s hands and winner flags (via C02, C03, C01). '
+                'Proved over the specification\'s deals by a permutation-invariant sum over unordered turn/river pairs.',
+        'note': 'as C02/C03/C01 (same models and ties); the correspondence compares tallies of the real crate across all 24 suit permutations and player orders and with the model\'s tallies.',
+        'design_ref': 'DESIGN.md §6 C11',
+    },
     'C07': {
         'text': 'Theorem C07: for seven distinct cards the category given by the interval arms read from the source equals the rule-book category of the strongest '
                 'five-card hand (C07_intervals proved symbolically for all indexes 1..7462; combined with C01 and the numbering theorem).',
